@@ -49,6 +49,10 @@ impl Clone for Board {
 }
 
 impl Board {
+    /// fen unit: Board::from_fen (turn and key agree with the loaded position)
+    #[verifier::external_body]
+    pub fn from_fen(fen: &str) -> (r: Board) ensures bwf(r) { unimplemented!() }
+
     #[verifier::external_body]
     pub fn get_all_moves(&self) -> (r: Vec<Ply>)
         requires bwf(*self),
